@@ -202,6 +202,21 @@ def unit_audit_csv():
             c, bad = k9[0]
             extra.append(Result("A-CSV/K-9 witness: with skip initial space a cell with a leading blank does not round-trip", "audit", FAILED, "native", finding="K-9", cases=len(k9), props=["C12", "C14"], detail=str(bad)[:300],
                                 replay={"verdict": "confirmed", "input": desc(c), "expected": bad.get("expected"), "observed": bad.get("observed")}))
+        # cells at and beyond the csv module's field size limit (recorded finding K-13)
+        known13 = findings.is_known("K-13", "C12"); k13 = []
+        def long_cases():
+            from cutplace import data
+            f = data.DataFormat("delimited"); f.validate()
+            for n_ in (131072, 131073, 300000): yield (f, [["x" * n_, "b", "c"]])
+        def long_check(c):
+            bad = check(c)
+            if bad and known13 and len(c[1][0][0]) > 131072 and "field larger than field limit" in str(bad.get("observed")): k13.append((len(c[1][0][0]), bad)); return None
+            return bad
+        extra.append(sweep("A-CSV/round-trip of very long cells", long_cases(), long_check, "audit", "one cell of 131072, 131073 and 300000 characters" + (" (beyond 131072: recorded finding K-13)" if known13 else ""),
+                           describe=lambda c: {"cell_length": len(c[1][0][0])}, function="csv.reader/csv.writer via rowio", unit="C12.audit.A-CSV", props=["C12", "C14"]))
+        if k13:
+            extra.append(Result("A-CSV/K-13 witness: a cell longer than 131072 characters is written but cannot be read back", "audit", FAILED, "native", finding="K-13", cases=len(k13), props=["C12", "C14"], detail=str(k13[0][1])[:300],
+                                replay={"verdict": "confirmed", "input": {"cell_length": k13[0][0]}, "expected": "the identical table", "observed": str(k13[0][1].get("observed"))[:200]}))
         return extra + [sweep("A-CSV/round-trip over all accepted delimited formats", cases(), check, "audit",
                       "every format accepted by the CID loader from 14 item delimiters x 20 quote characters x 2 escape characters x 2 quoting modes x 4 line delimiters; tables: all single cells up to length 2 over {x, blank, CR, LF, delimiter, quote, escape}, a rotating selection of 2-column rows, one 3x2 table (thorough: all pairs + random 5x4 tables)",
                       describe=desc, function="csv.reader/csv.writer via rowio", unit="C12.audit.A-CSV", props=["C12", "C14"])]
